@@ -623,6 +623,15 @@ func gen(r *vf.Rand) c12Case {
 	c.File = r.Chance(12)
 	c.Req = genReq(r)
 	c.E = genTree(r, r.Range(1, 6), odd, !c.R.Verbose)
+
+	// configuration files: make the precondition override (finding C12-F4) and precondition failures frequent
+	if c.File && r.Chance(50) {
+		c.R.Precond = vf.Pick(r, []int{418, 422, 400, 499, 300, 999})
+
+		if r.Chance(70) {
+			c.E = node{K: "c", N: r.Intn(2), Sub: []node{{K: "s", Kind: "arg"}, c.E}}
+		}
+	}
 	c.Probe = vf.Pick(r, probeCodes)
 
 	switch x := r.Intn(100); {
